@@ -902,6 +902,32 @@ func streamDict() {
 		}
 		cases = append(cases, c)
 	}
+	// fixed cases: a user chord next to the built-in children of the same parent, each used again after the other
+	// (what one chord's resolution leaves behind must not leak into the next)
+	family := []struct {
+		parent   string
+		children []string
+	}{
+		{"MajorTriad", []string{"7", "M7", "6", "add9", ""}}, {"MinorTriad", []string{"m7", "mM7", "m6", "m"}},
+		{"DiminishedTriad", []string{"m7b5", "dim7", "dim"}}, {"AugmentedTriad", []string{"augM7", "aug"}},
+		{"DominantSeventh", []string{"9", "7"}}, {"MajorSeventh", []string{"M9", "maj7", "M7"}}, {"MinorSeventh", []string{"m9", "m7"}},
+		{"MinorMajorSeventh", []string{"mM9", "mM7"}}, {"SuspendedFourth", []string{"7sus4", "sus4"}}, {"MajorNinth", []string{"maj9", "M9"}},
+	}
+	for _, fam := range family {
+		for _, extra := range []string{"Minor9", "Major13", "Augmented11"} {
+			user := []rawChordDef{{name: "UserChild", display: "uc", extends: fam.parent, attrs: []string{extra}},
+				{name: "UserGrandChild", display: "ugc", extends: "UserChild", attrs: []string{"Major7"}}}
+			for _, child := range fam.children {
+				for _, order := range [][]string{{child, "uc", child, "uc"}, {"uc", child, "ugc", "uc", child}, {"ugc", "uc", child, "ugc"}} {
+					c := writeCase{flags: writeFlags{track: 1, instrument: "Piano"}, chords: user}
+					for k, sym := range order {
+						c.is = append(c.is, rawInstance{chord: &rawChord{degree: sp(degreeStrings[k%7]), name: sym}, values: []string{"1"}})
+					}
+					cases = append(cases, c)
+				}
+			}
+		}
+	}
 	results := make([]string, len(cases))
 	parallel(len(cases), func(i int) {
 		cl, out := runWrite(i, cases[i])
